@@ -99,6 +99,8 @@ type histOpts struct {
 	expIn  int
 	noRT   bool
 	faults map[int]string
+	// methods is what the provider's discovery document advertises as code_challenge_methods_supported
+	methods []string
 }
 
 func genHistOpts(c *sim.Case) histOpts {
@@ -114,6 +116,9 @@ func genHistOpts(c *sim.Case) histOpts {
 	if sim.Weighted(c, "abs-timeout", 2, 1) == 1 {
 		ho.o.Abs = []time.Duration{30 * time.Minute, 2 * time.Hour, 24 * time.Hour}[sim.Pick(c, "abs", 3)]
 	}
+	if ho.o.Discovery {
+		ho.methods = [][]string{nil, {"S256"}, {"plain", "S256"}, {"S256", "plain"}, {"plain"}}[sim.Pick(c, "pkce-methods", 5)]
+	}
 	if ho.o.Logout && ho.o.Discovery && sim.Bool(c, "explicit-logout-uri") {
 		ho.o.LogoutURI = "http://sso.test/custom-logout"
 	}
@@ -123,6 +128,7 @@ func genHistOpts(c *sim.Case) histOpts {
 func (ho histOpts) build(c *sim.Case, mons ...monitor) *H {
 	w := sim.NewWorld(c, ho.o)
 	w.IdP.IDTTL = ho.idTTL
+	w.IdP.ChallengeMethods = ho.methods
 	w.IdP.Default = &sim.Behaviour{Name: "default", ExpiresIn: ho.expIn, NoExpiresIn: ho.expIn == 0, NoRefresh: ho.noRT}
 	for k, v := range ho.faults {
 		w.Faults[k] = v
